@@ -24,6 +24,9 @@ def run_engine(n, stall=20, timeout=3600):
         raise vc.MachineryError("typemap engine exceeded its wall clock cap")
     lines = [l for l in p.stdout.splitlines() if l.strip()]
     if not lines:
+        if p.returncode < 0 or p.returncode in (134, 139):
+            # the code under test brought the engine down (stack exhaustion / abort inside a lookup)
+            return {"crash": True, "returncode": p.returncode, "stderr_tail": p.stderr[-400:]}, p
         raise vc.MachineryError(f"typemap engine produced no output (rc={p.returncode}): {p.stderr[-2000:]}")
     return json.loads(lines[-1]), p
 
@@ -39,6 +42,13 @@ def main(tier, t0):
     exhaustive = True
     for n in sizes:
         out, p = run_engine(n)
+        if out.get("crash"):
+            what = "stack-overflow" if "overflowed its stack" in out["stderr_tail"] else f"rc={out['returncode']}"
+            tally.violation(f"crash:lookup-brought-the-process-down:{what}",
+                            {"n": n, "returncode": out["returncode"], "stderr_tail": out["stderr_tail"]})
+            per_n[str(n)] = {"crash": True}
+            exhaustive = False
+            continue
         if out.get("hang"):
             tally.violation("hang:lookup-does-not-terminate", {"n": n, "witness": out["witness"]})
             per_n[str(n)] = {"hang": True}
@@ -93,6 +103,8 @@ def replay(path):
     n = r["case"].get("n", 3)
     out, _ = run_engine(n)
     sigs = {v["signature"]: v for v in out.get("violations", [])}
+    if out.get("crash"):
+        sigs[r["signature"]] = out
     if out.get("hang"):
         sigs["hang:lookup-does-not-terminate"] = out
     if r["signature"] in sigs:
